@@ -28,3 +28,38 @@ package middleware
 //@   ensures others: forall k Iface :: k != ridKey() ==> ctxVal(result, k) == ctxVal(ctx, k)
 //@   ensures nonnil: result != nil
 //@   modifies nothing
+
+// ---- tracing ----------------------------------------------------------------------
+
+//@ ghost var lastTraceID String
+//@ ghost var lastSpanID String
+
+//@ func (*TraceOptions).TraceID
+//@   requires o != nil
+//@   callspec traceIDFunc
+//@       ensures lastTraceID == result
+//@       modifies lastTraceID
+//@   ensures id: result == lastTraceID
+//@   modifies lastTraceID
+
+//@ func (*TraceOptions).SpanID
+//@   requires o != nil
+//@   callspec spanIDFunc
+//@       ensures lastSpanID == result
+//@       modifies lastSpanID
+//@   ensures id: result == lastSpanID
+//@   modifies lastSpanID
+
+//@ macro sval(c, k) = unboxStr(ctxVal(c, iface(string, k)).val)
+//@ macro shas(c, k) = typeIs(ctxVal(c, iface(string, k)), string)
+
+//@ func WithSpan
+//@   property C19
+//@   requires ctx != nil
+//@   requires TraceIDKey != TraceSpanIDKey && TraceIDKey != TraceParentSpanIDKey && TraceSpanIDKey != TraceParentSpanIDKey
+//@   ensures* trace: shas(result, TraceIDKey) && sval(result, TraceIDKey) == traceID
+//@   ensures* span: shas(result, TraceSpanIDKey) && sval(result, TraceSpanIDKey) == spanID
+//@   ensures* parent: parentID != "" ==> shas(result, TraceParentSpanIDKey) && sval(result, TraceParentSpanIDKey) == parentID
+//@   ensures* noparent: parentID == "" ==> ctxVal(result, iface(string, TraceParentSpanIDKey)) == ctxVal(ctx, iface(string, TraceParentSpanIDKey))
+//@   ensures nonnil: result != nil
+//@   modifies nothing
